@@ -318,8 +318,100 @@ Definition g_operate (prod : bool) (D1 D2 : gauss) : option gauss :=
   | _, _ => None
   end.
 
+(* ---------------------------------------------------------------- a GaussianDistribution OBJECT: the
+   distribution plus the lazily filled cache self._precision_matrix, and the effect of each method on it.
+   (copy() copies the cache; marginalize / reduce / in-place _operate reset it; reading precision_matrix,
+   to_canonical_factor and hence product / divide fill it.) *)
+Record gobj := mkObj { o_d : gauss; o_cache : option mat }.
+
+(* property precision_matrix *)
+Definition o_precision (o : gobj) : option (gobj * mat) :=
+  match o_cache o with
+  | Some P => Some (o, P)
+  | None => match minv (gcov (o_d o)) with
+            | Some P => Some ({| o_d := o_d o; o_cache := Some P |}, P)
+            | None => None
+            end
+  end.
+Definition o_to_canonical (o : gobj) : option (gobj * canon) :=
+  match o_precision o with
+  | Some (o', P) => Some (o', {| kvars := gvars (o_d o); kK := P; kh := mvmul P (gmean (o_d o)) |})
+  | None => None
+  end.
+Definition o_copy (o : gobj) : gobj := {| o_d := o_d o; o_cache := o_cache o |}.
+(* phi = self or self.copy(); ...; phi._precision_matrix = None *)
+Definition o_marginalize (o : gobj) (drop : list nat) : option gobj :=
+  match g_marginalize (o_d (o_copy o)) drop with
+  | Some d => Some {| o_d := d; o_cache := None |}
+  | None => None
+  end.
+Definition o_reduce (o : gobj) (values : list (nat * K)) : option gobj :=
+  match g_reduce (o_d (o_copy o)) values with
+  | Some d => Some {| o_d := d; o_cache := None |}
+  | None => None
+  end.
+(* _operate(other, op): (self afterwards when not in place, other afterwards, the result object) *)
+Definition o_operate (prod : bool) (o other : gobj) : option (gobj * gobj * gobj) :=
+  match o_to_canonical o, o_to_canonical other with
+  | Some (o', C1), Some (other', C2) =>
+      match c_operate prod C1 C2 with
+      | Some C => match c_to_joint_gaussian C with
+                  | Some d => Some (o', other', {| o_d := d; o_cache := None |})
+                  | None => None
+                  end
+      | None => None
+      end
+  | _, _ => None
+  end.
+
+(* one step of a usage sequence on the object under test *)
+Inductive gstep :=
+| SPrec                                             (* read precision_matrix *)
+| SCanon                                            (* to_canonical_factor() *)
+| SCopy                                             (* continue with copy() *)
+| SMarg (drop : list nat)                           (* marginalize (in place, or continue with the result) *)
+| SReduce (values : list (nat * K))                 (* reduce      (in place, or continue with the result) *)
+| SOperate (prod : bool) (other : gauss)            (* product/divide, continue with the result / in place *)
+| SOperateSelf (prod : bool) (other : gauss).       (* product/divide(inplace=False), continue with self *)
+
+Definition o_step (o : gobj) (s : gstep) : option gobj :=
+  match s with
+  | SPrec => option_map fst (o_precision o)
+  | SCanon => option_map fst (o_to_canonical o)
+  | SCopy => Some (o_copy o)
+  | SMarg drop => o_marginalize o drop
+  | SReduce values => o_reduce o values
+  | SOperate prod other =>
+      match o_operate prod o {| o_d := other; o_cache := None |} with
+      | Some (_, _, r) => Some r
+      | None => None
+      end
+  | SOperateSelf prod other =>
+      match o_operate prod o {| o_d := other; o_cache := None |} with
+      | Some (o', _, _) => Some o'
+      | None => None
+      end
+  end.
+(* states after each step (None from the first failing step on) *)
+Fixpoint o_trace (o : gobj) (steps : list gstep) : list (option gobj) :=
+  match steps with
+  | [] => []
+  | s :: r => match o_step o s with
+              | Some o' => Some o' :: o_trace o' r
+              | None => map (fun _ => None) steps
+              end
+  end.
+Fixpoint o_run (o : gobj) (steps : list gstep) : option gobj :=
+  match steps with
+  | [] => Some o
+  | s :: r => match o_step o s with Some o' => o_run o' r | None => None end
+  end.
+
 End Model.
 
 Arguments mkCpd {K}. Arguments cvar {K}. Arguments cmean {K}. Arguments cvariance {K}. Arguments cevid {K}.
 Arguments mkGauss {K}. Arguments gvars {K}. Arguments gmean {K}. Arguments gcov {K}.
 Arguments mkCanon {K}. Arguments kvars {K}. Arguments kK {K}. Arguments kh {K}.
+Arguments mkObj {K}. Arguments o_d {K}. Arguments o_cache {K}.
+Arguments SPrec {K}. Arguments SCanon {K}. Arguments SCopy {K}. Arguments SMarg {K}. Arguments SReduce {K}.
+Arguments SOperate {K}. Arguments SOperateSelf {K}.
